@@ -19,7 +19,8 @@
 //                      the returned score is printed; with hook H3 and TEXEL_VERIF_TRACE set the
 //                      nodes are traced like in the engine
 //   T                  clear the transposition table
-//   R dtm ply hmc      tbprobe.cpp rule50Margin: "margin evalScoreAfter"   (C13)
+//   R dtm ply hmc old  tbprobe.cpp rule50Margin on an entry whose evalScore field is old:
+//                      "margin evalScoreAfter"                              (C13)
 //   X eval dist        Evaluate::swindleScore(eval, dist)                  (C13)
 #include <vector>
 #include <string>
@@ -41,6 +42,7 @@
 #include "parallel.hpp"
 #include "treeLogger.hpp"
 #include "tbprobe.hpp"
+#include "computerPlayer.hpp"
 #undef private
 #undef protected
 
@@ -94,6 +96,7 @@ struct CaptureListener : public Search::Listener {
 };
 
 int main() {
+    ComputerPlayer::initEngine();   // piece values etc. (as texel.cpp main does)
     std::vector<U64> nullHist(SearchConst::MAX_SEARCH_DEPTH * 2);
     TranspositionTable tt(1 << 16);
     Notifier notifier;
@@ -218,8 +221,7 @@ int main() {
             tt.clear();
             std::cout << "ok\n";
         } else if (k == "R") {
-            int dtm, ply, hmc; is >> dtm >> ply >> hmc;
-            int ev = 0;
+            int dtm, ply, hmc, ev = 0; is >> dtm >> ply >> hmc >> ev;
             int m = c13gen::callRule50Margin(dtm, ply, hmc, ev);
             std::cout << m << ' ' << ev << '\n';
         } else if (k == "X") {
